@@ -190,7 +190,9 @@ def run_result(F, n, with_traj, kind, wd, variant):
         trajs["ref"] = make_tum_traj(F, n, "quat") if kind == "traj" else \
             make_path(F, n, "se3")
         trajs["est"] = make_tum_traj(F, max(1, n - 1), "se3") \
-            if kind == "traj" else make_path(F, n, "quat")
+            if kind == "traj" else make_path(F, max(1, n // 2), "quat")
+        trajs["third"] = make_tum_traj(F, max(1, n // 3), "quat") \
+            if kind == "traj" else make_path(F, 1, "se3")
         for k, t in trajs.items():
             r.add_trajectory(k, t)
     p = os.path.join(wd, "r.zip")
@@ -244,10 +246,12 @@ def run_result(F, n, with_traj, kind, wd, variant):
     return msgs
 
 
-def run_df(F, n, mode, timed):
+def run_df(F, n, mode, timed, stamps=None):
     from evo.core.trajectory import PosePath3D, PoseTrajectory3D
     from evo.tools import pandas_bridge as pb
     t = make_tum_traj(F, n, mode) if timed else make_path(F, n, mode)
+    if stamps is not None:
+        t.timestamps = np.array(stamps, dtype=float)
     # DataFrame index must be usable: keep the stamps as they are
     df = pb.trajectory_to_df(t)
     msgs = []
@@ -326,6 +330,13 @@ def shard_run(arg):
     acc = Acc()
     sizes = [1, 2, 3, len(F)] + ([10**5] if thorough else [])
 
+    def safe(fn, *a):
+        try:
+            return fn(*a)
+        except Exception as e:
+            return ["round trip raised %s: %s" % (type(e).__name__,
+                                                  str(e)[:150])]
+
     def rec(case, msgs, nvals):
         acc.count("evaluations")
         acc.count("transitions", 2)
@@ -348,7 +359,7 @@ def shard_run(arg):
                             continue
                         case = {"fmt": "tum", "n": n, "mode": mode, "w": wk,
                                 "r": rk}
-                        rec(case, run_tum(F, n, mode, wk, rk, wd), 8 * n)
+                        rec(case, safe(run_tum, F, n, mode, wk, rk, wd), 8 * n)
     elif part == "kitti":
         for n in sizes:
             for mode in ("quat", "se3"):
@@ -358,7 +369,7 @@ def shard_run(arg):
                             continue
                         case = {"fmt": "kitti", "n": n, "mode": mode, "w": wk,
                                 "r": rk}
-                        rec(case, run_kitti(F, n, mode, wk, rk, wd), 12 * n)
+                        rec(case, safe(run_kitti, F, n, mode, wk, rk, wd), 12 * n)
     elif part == "result":
         for n in sizes[:4]:
             for with_traj in (False, True):
@@ -366,14 +377,23 @@ def shard_run(arg):
                     for variant in range(4 if n < 10 else 40):
                         case = {"fmt": "result", "n": n, "with_traj":
                                 with_traj, "kind": kind, "variant": variant}
-                        rec(case, run_result(F, n, with_traj, kind, wd,
-                                             variant), 2 * n + 31)
+                        rec(case, safe(run_result, F, n, with_traj, kind,
+                                       wd, variant), 2 * n + 31)
     elif part == "df":
         for n in sizes[:4]:
             for mode in ("quat", "se3"):
                 for timed in (True, False):
                     case = {"fmt": "df", "n": n, "mode": mode, "timed": timed}
-                    rec(case, run_df(F, n, mode, timed), 8 * n)
+                    rec(case, safe(run_df, F, n, mode, timed), 8 * n)
+        # timestamps that look like an enumeration / whole numbers
+        for stamps in ([0.0], [0.0, 1.0, 2.0], [0.0, 1.0, 2.0, 3.0, 4.0],
+                       [5.0, 6.0, 7.0], [1.0], [0.0, 2.0, 4.0],
+                       [1700000000.0, 1700000001.0]):
+            for mode in ("quat", "se3"):
+                case = {"fmt": "df", "n": len(stamps), "mode": mode,
+                        "timed": True, "stamps": stamps}
+                rec(case, safe(run_df, F, len(stamps), mode, True, stamps),
+                    8 * len(stamps))
     elif part == "bag":
         ep = epoch_stamps()
         # epoch-sized stamps with many different sub-microsecond fractions
@@ -390,7 +410,7 @@ def shard_run(arg):
             for frame_id in ("map", "", "wörld/frame_1"):
                 case = {"fmt": "bag", "n": len(stamps), "stamps": stamps,
                         "frame_id": frame_id}
-                rec(case, run_bag(stamps, frame_id, wd), 8 * len(stamps))
+                rec(case, safe(run_bag, stamps, frame_id, wd), 8 * len(stamps))
     return acc
 
 
@@ -417,6 +437,13 @@ def run(ctx):
 
 
 def replay(part, case):
+    try:
+        return _replay(part, case)
+    except Exception as e:
+        return ["round trip raised %s: %s" % (type(e).__name__, str(e)[:150])]
+
+
+def _replay(part, case):
     F = alphabet()
     wd = tempfile.mkdtemp(dir=os.getcwd(), prefix="c06r_")
     if part == "tum":
@@ -427,7 +454,8 @@ def replay(part, case):
         return run_result(F, case["n"], case["with_traj"], case["kind"], wd,
                           case["variant"])
     if part == "df":
-        return run_df(F, case["n"], case["mode"], case["timed"])
+        return run_df(F, case["n"], case["mode"], case["timed"],
+                      case.get("stamps"))
     if part == "bag":
         return run_bag(case["stamps"], case["frame_id"], wd)
     return []
